@@ -47,6 +47,17 @@ def run_wqcases(chk, pid, runner, tier, seed, workdir, log, only_key):
                                 "stimuli": c["stimuli"], "detail": c["stderr_tail"][:1200], "signature": c["signature"],
                                 "found_failing_input": True,
                                 "n_children_with_this_signature": sum(1 for d in stats["crashes"] if d["signature"] == c["signature"])})
+    # burst trials (C19): Go-side monitor "work accepted before Stop is started exactly once", exact in its regime
+    bseen = set()
+    for bf in stats.get("burst_failures", []) or []:
+        if bf["signature"] in bseen:
+            continue
+        bseen.add(bf["signature"])
+        res["failures"].append({"kind": "monitor", "theorem_or_correspondence": "burst of Enqueue calls then Stop: accepted work still runs (Go-side monitor)",
+                                "case": bf["trial"], "detail": bf["detail"], "signature": bf["signature"],
+                                "found_failing_input": True,
+                                "n_trials_failing_this_clause": sum(1 for d in stats["burst_failures"] if d["signature"] == bf["signature"])})
+    res["extra"].pop("burst_failures", None)
     res["extra"]["crash_signatures"] = sorted(cseen)
     res["extra"].pop("crashes", None)
     if verdicts is None:
